@@ -285,3 +285,24 @@ func StripTag(root **M, tag uint64) int {
 		}
 	}
 }
+
+// StripAllTags removes every tag (any number) from the tree, also inside
+// embedded items, and reports how many were removed.
+func StripAllTags(root **M) int {
+	n := 0
+	for {
+		found := false
+		for _, s := range MSlots(root) {
+			x := s.Get()
+			if x != nil && x.Verb == nil && x.Major == 6 && x.Child != nil {
+				s.Set(x.Child)
+				n++
+				found = true
+				break
+			}
+		}
+		if !found {
+			return n
+		}
+	}
+}
